@@ -55,7 +55,7 @@ func RandomProgram(seed uint64, o RandomOpts) *Program {
 	if r.p(1, 2) {
 		p.Enums = append(p.Enums, Enum{Name: "Color", Values: []string{"COLOR_NONE", "COLOR_RED", "COLOR_BLUE", "COLOR_GREEN"}})
 	}
-	nameN := 0
+	nameN, jsonN := 0, 0
 	// a shuffled pool of suffixes: alphabetical order (which `sort` follows) is unrelated to declaration
 	// order, so the members of different oneof groups and plain fields interleave
 	pool := make([]int, 200)
@@ -201,9 +201,6 @@ func RandomProgram(seed uint64, o RandomOpts) *Program {
 			if f.Card == CardMap && f.Kind == KBytes {
 				f.Card = CardList
 			}
-			if f.Card == CardMap && (f.Kind == KTime || f.Kind == KDuration) {
-				f.Nullable = false
-			}
 			if f.Card != CardOne && f.Kind == KMessage && len(p.Msg(f.Ref).Fields) == 0 {
 				f.Card = CardOne
 			}
@@ -232,7 +229,8 @@ func RandomProgram(seed uint64, o RandomOpts) *Program {
 				}
 			}
 			if f.JSON == "" && !f.Embed && r.p(1, 10) {
-				f.JSON = "j_" + letters(nameN)
+				jsonN++
+				f.JSON = "j_" + letters(nameN) + letters(jsonN) // unique whatever the field is called
 				if r.p(1, 2) {
 					f.JSON += ",omitempty"
 				}
@@ -621,6 +619,11 @@ func RandomConfig(p *Program, seed uint64) Config {
 			if r.p(1, 2) {
 				c.InjectedFields[root] = append(c.InjectedFields[root], Injected{Name: "extra", Type: "github.com/hashicorp/terraform-plugin-framework/types.Int64Type", Optional: true,
 					Validators: []string{"UseSimValidator()"}, PlanModifiers: []string{"github.com/hashicorp/terraform-plugin-framework/tfsdk.UseStateForUnknown()"}})
+			}
+			// any combination of the three flags, none and all included
+			if r.p(1, 2) {
+				c.InjectedFields[root] = append(c.InjectedFields[root], Injected{Name: "flags_" + letters(i), Type: "github.com/hashicorp/terraform-plugin-framework/types.BoolType",
+					Required: r.p(1, 3), Computed: r.p(1, 3), Optional: r.p(1, 3)})
 			}
 		}
 	}
